@@ -58,7 +58,7 @@ func chunk(in, out string, allMembersUpTo int) {
 			parts = helpers.ChunkSlice[uint16](ids, t)
 		}()
 		if parts == nil {
-			b, _ := json.Marshal(map[string]any{"n": n, "t": t, "members": 0, "runs": [][3]int{}, "get_ok": false})
+			b, _ := json.Marshal(map[string]any{"n": n, "t": t, "members": 0, "runs": [][3]int{}, "contig": false, "gs": [][4]int{}, "full": false})
 			w.Write(b)
 			w.WriteByte('\n')
 			mism++
@@ -98,35 +98,33 @@ func chunk(in, out string, allMembersUpTo int) {
 			}
 			runs = append(runs, run{1, start, size})
 		}
-		// VBucketDiscovery.Get with static membership must return exactly chunk member-1
-		getOK := true
+		// VBucketDiscovery.Get with static membership, for every member (small n, and small t of the large bucket sizes) or for the
+		// first, middle and last member: reported as [member, first vBucket, size, contiguous] and judged by MonChunk.tla on its
+		// own (non-empty, contiguous, inside 0..n-1, sizes floor/ceil(n/t), pairwise disjoint, exact cover when all were asked)
 		members := []int{1, (t + 1) / 2, t}
-		if n <= allMembersUpTo {
+		full := n <= allMembersUpTo || t <= 130 || t >= n-2
+		if full {
 			members = members[:0]
 			for m := 1; m <= t; m++ {
 				members = append(members, m)
 			}
 		}
+		gs := [][4]int{}
 		for _, m := range members {
-			cfg := &config.Dcp{}
-			cfg.Dcp.Group.Membership.Type = "static"
-			cfg.Dcp.Group.Membership.MemberNumber = m
-			cfg.Dcp.Group.Membership.TotalMembers = t
-			vd := stream.NewVBucketDiscovery(nil, cfg, n, bus)
-			got := vd.Get()
+			got := getStatic(n, t, m, bus)
 			gets++
-			want := parts[m-1]
-			if len(got) != len(want) {
-				getOK = false
-			} else {
+			g := [4]int{m, -1, len(got), 1}
+			if len(got) > 0 {
+				g[1] = int(got[0])
 				for k := range got {
-					if got[k] != want[k] {
-						getOK = false
+					if int(got[k]) != g[1]+k {
+						g[3] = 0
 					}
 				}
 			}
+			gs = append(gs, g)
 		}
-		b, _ := json.Marshal(map[string]any{"n": n, "t": t, "members": len(parts), "runs": runs, "get_ok": getOK && okContig})
+		b, _ := json.Marshal(map[string]any{"n": n, "t": t, "members": len(parts), "runs": runs, "contig": okContig, "gs": gs, "full": full})
 		w.Write(b)
 		w.WriteByte('\n')
 	}
@@ -158,8 +156,12 @@ func chunk(in, out string, allMembersUpTo int) {
 			for _, m := range []int{1, t, (t + 1) / 2} {
 				hbus.Publish(helpers.MembershipChangedBusEventName, &membership.Model{MemberNumber: m, TotalMembers: t})
 				hbus.WaitAsync()
-				got := vd.Get()
-				want := helpers.ChunkSlice[uint16](ids, t)[m-1]
+				var got []uint16
+				func() {
+					defer func() { _ = recover() }()
+					got = vd.Get()
+				}()
+				want := getStatic(n, t, m, bus) // (what a fresh discovery object computes for the same membership)
 				histCalls++
 				same := len(got) == len(want)
 				for k := 0; same && k < len(got); k++ {
@@ -178,6 +180,21 @@ func chunk(in, out string, allMembersUpTo int) {
 	b, _ := json.Marshal(map[string]any{"summary": true, "pairs": pairs, "get_calls": gets, "spec_mismatches": mism, "first_mismatch": firstMis,
 		"history_calls": histCalls, "history_mismatches": histMism})
 	fmt.Println(string(b))
+}
+
+// getStatic: VBucketDiscovery.Get of a fresh object with static membership m of t over n vBuckets (nil when it crashes)
+func getStatic(n, t, m int, bus EventBus.Bus) (got []uint16) {
+	cfg := &config.Dcp{}
+	cfg.Dcp.Group.Membership.Type = "static"
+	cfg.Dcp.Group.Membership.MemberNumber = m
+	cfg.Dcp.Group.Membership.TotalMembers = t
+	vd := stream.NewVBucketDiscovery(nil, cfg, n, bus)
+	defer func() {
+		if recover() != nil { // a crash on a valid (n, t, member) is a wrong answer, not a harness failure
+			got = nil
+		}
+	}()
+	return vd.Get()
 }
 
 func first(l []uint16) int {
